@@ -1023,6 +1023,7 @@ class _HitenBase(_SerializeBase, ABC):
         """Get state for pickling, preserving computed properties."""
         state = self.__dict__.copy()
         state.pop("_services", None)
+        state.pop("_restored_computed_names", None)
 
         source = self._get_computed_properties_source()
         if source is not None:
@@ -1034,6 +1035,10 @@ class _HitenBase(_SerializeBase, ABC):
                         if self._is_computed_property(attr_name, value):
                             # Convert value to serializable format if needed
                             state[attr_name] = self._make_serializable(value)
+                        elif value is None and attr_name in getattr(self, '_restored_computed_names', ()) and attr_name in state:
+                            # The copy left in __dict__ by a previous load is stale: the
+                            # source has dropped this value since (e.g. after a correction).
+                            state[attr_name] = None
                     except Exception:
                         # Skip attributes that can't be accessed or raise errors
                         # (properties are evaluated here; one that is undefined for
@@ -1157,13 +1162,16 @@ class _HitenBase(_SerializeBase, ABC):
         if hasattr(self, '_computed_properties_to_restore'):
             target = self._set_computed_properties_target()
             if target is not None:
+                restored = set()
                 for attr_name, value in self._computed_properties_to_restore.items():
                     if hasattr(target, attr_name):
                         try:
                             setattr(target, attr_name, value)
+                            restored.add(attr_name)
                         except (AttributeError, TypeError):
                             # Skip properties that can't be set (e.g., read-only properties)
                             continue
+                self._restored_computed_names = restored
             # Clean up the temporary storage
             delattr(self, '_computed_properties_to_restore')
         
